@@ -399,6 +399,17 @@ pub fn plan_lifecycle_lp(w: &World, knobs: &Knobs, actor: &mut Actor, l: &Ledger
                 let pk = PositionKeys { position: bp, mint: *bmint, token_account: *bta, owner: actor.wallet, nft_program: ix::tok() };
                 flow.push((tx1(ix::close_position(&actor.wallet, &actor.wallet, &pk)), "close_position on a bundled position".into()));
             }
+            // one close in eight is followed, in the SAME transaction, by a deposit into the position just closed (what the close
+            // leaves behind until the transaction ends must not be usable as a position)
+            let zombie_deposit = if rng.chance(1, 8) {
+                l.data(&bp).and_then(decode::position).and_then(|p| pool_of(w, &p.whirlpool).map(|ppi| {
+                    let pk = PositionKeys { position: bp, mint: *bmint, token_account: *bta, owner: actor.wallet, nft_program: ix::tok() };
+                    let la = liq_accounts(actor, &ppi.keys, &pk, &p);
+                    ix::increase_liquidity_v2(&la, 1 + rng.below(100_000) as u128, u64::MAX, u64::MAX)
+                }))
+            } else {
+                None
+            };
             flow.push((
                 tx1(ix::mk(
                     wa::CloseBundledPosition {
@@ -413,6 +424,10 @@ pub fn plan_lifecycle_lp(w: &World, knobs: &Knobs, actor: &mut Actor, l: &Ledger
                 )),
                 "close_bundled_position".into(),
             ));
+            if let (Some(dep), Some((tx, tag))) = (zombie_deposit, flow.last_mut()) {
+                tx.ixs.push(dep);
+                tag.push_str(" + deposit into the closed position (one transaction)");
+            }
         }
         19 if !bundles.is_empty() => {
             let (bmint, bk, bta, _) = &bundles[rng.idx(bundles.len())];
